@@ -311,7 +311,7 @@ func validateRecs(dir string, recs []*run.Recorded, st *TraceStats, start time.T
 		cmpBad := false
 		for _, d := range ds {
 			k := d.Kind
-			if strings.HasPrefix(k, "verdict.") || k == "root" || k == "mk" || strings.HasPrefix(k, "args.") ||
+			if strings.HasPrefix(k, "verdict.") || k == "root" || k == "mk" || (strings.HasPrefix(k, "args.") && !obs.NoArgs) ||
 				k == "exec.extra" || k == "exec.missing" || k == "exec.outcome" || k == "exec.order" || k == "exec.dry" ||
 				strings.HasPrefix(k, "cb.count") || strings.HasPrefix(k, "cb.err") || strings.HasPrefix(k, "cb.runtime") ||
 				strings.HasPrefix(k, "cb.dry") || k == "exec.inreg" {
